@@ -555,7 +555,7 @@ def run(case, res):
     if cand:
         w0 = cand[sched.get('hash_seed', 0) % len(cand)]
         orig_name = w0.name
-        for nm in ('clk', 'CLOCK', 'tmp_%s' % orig_name, 'x y', orig_name):
+        for nm in ('tmp_%s' % orig_name, 'x y', orig_name, 'clk', 'CLOCK'):
             try:
                 w0.name = nm
             except (pyrtl.PyrtlError, pyrtl.PyrtlInternalError):
